@@ -7,6 +7,7 @@ import KM.Props.C06Go
 import KM.Gen.GoCookieUp
 import KM.Gen.GoVipOtp
 import KM.Gen.GoOkta
+import KM.Gen.GoU2f
 /-! # C05 — when `validateUserTOTP` says yes, on the TRANSLATED source (go2lean); see `KM/Props/C14Go.lean` -/
 namespace KM.Totp
 open KM.Go KM.GoTypes
@@ -562,3 +563,114 @@ theorem c05_go_okta_otp_upgrade (ext : OktaExt) (isOkta : Bool) (user : List Cha
     (repeat' split at h) <;> simp_all [Prod.ext_iff]
 
 end KM.OktaGo
+
+/-! ## `u2fSignResponse`: the two verification loops to the end of the function (`KM/Gen/GoU2f.lean`, tail block; maps
+ranged over as lists of pairs in any order) -/
+namespace KM.U2fGo
+open KM.GoTypes KM.Go
+
+/-- what a raised cookie rests on -/
+def Proved (ext : U2fExt) (user : List Char) (authType : Nat) (u : List Char) (lvl : Nat) : Prop :=
+  u = user ∧ lvl = (authType ||| 8) ∧ ext.consumeResult user = true ∧
+  ((∃ kv ∈ ext.regs, kv.2.Enabled = true ∧ (ext.authenticate kv.2).2 = none) ∨
+   (∃ kv ∈ ext.waRegs, kv.2.Enabled = true ∧ (ext.toU2f kv.2).2 = none ∧
+      (ext.authenticate (ext.toU2f kv.2).1).2 = none))
+
+/-- **a U2F signature raises only the cookie of the user whose own token produced it, once per pending challenge**
+(C05, C16), on the translated source of `u2fSignResponse` (the two verification loops to the end of the function; the
+maps are ranged over in ANY order): the upgrade is reached only for `authData.Username`, by the U2F bit, only when
+`consumeLoginChallenge` found the pending challenge still there, and only when the sign response authenticated
+against an ENABLED U2F registration of that user's profile — or against the U2F form of an enabled WebAuthn
+registration of that profile. Proved with the Hoare rule for `forRange` (invariant: nothing has been recorded before
+the pass that returns). -/
+theorem c05_go_u2f_upgrade (ext : U2fExt) (user : List Char) (authType : Nat) (isXHR : Bool) (u : List Char) (lvl : Nat)
+    (h : U2fEffect.upgrade u lvl ∈ (KM.Gen.GoU2f.u2fVerifyCore ext user authType isXHR).2) :
+    Proved ext user authType u lvl := by
+  obtain ⟨regs, waRegs, auth, toU2f, cr, ur⟩ := ext
+  unfold KM.Gen.GoU2f.u2fVerifyCore at h
+  dsimp only at h
+  revert h
+  generalize hb1 : (fun (kv_ : Nat × u2fAuthData) (st : Option Err × List U2fEffect) => _) = body1
+  generalize hb2 : (fun (kv_ : Nat × webauthAuthData) (st : List U2fEffect) => _) = body2
+  have step1 : ∀ kv ∈ regs, ∀ s : Option Err × List U2fEffect, s.2 = [] →
+      (body1 kv s).post (fun s => s.2 = [])
+        (fun r => U2fEffect.upgrade u lvl ∈ r.2 → Proved ⟨regs, waRegs, auth, toU2f, cr, ur⟩ user authType u lvl) := by
+    intro kv hkv s hs
+    obtain ⟨i, reg⟩ := kv
+    obtain ⟨e, tr⟩ := s
+    simp only at hs
+    subst hs hb1
+    dsimp only
+    by_cases hen : reg.Enabled = true
+    · simp only [hen, Bool.not_true, Bool.false_eq_true, if_false]
+      by_cases hau : (auth reg).2.isNone = true
+      · simp only [hau, if_true]
+        by_cases hc : cr user = true
+        · simp only [hc, Bool.not_true, Bool.false_eq_true, if_false]
+          have hP : Proved ⟨regs, waRegs, auth, toU2f, cr, ur⟩ user authType user (authType ||| 8) :=
+            ⟨rfl, rfl, hc, Or.inl ⟨(i, reg), hkv, hen, by simpa using hau⟩⟩
+          by_cases hu : (ur user (authType ||| 8)).2.isSome = true
+          · simp only [hu, if_true, Ctl.post]
+            intro hm
+            cases isXHR <;> simp at hm <;> (obtain ⟨rfl, rfl⟩ := hm; exact hP)
+          · simp only [hu, Ctl.post]
+            intro hm
+            cases isXHR <;> simp at hm <;> (obtain ⟨rfl, rfl⟩ := hm; exact hP)
+        · have hc' : cr user = false := by simpa using hc
+          simp only [hc', Bool.not_false, if_true, Ctl.post]
+          intro hm; simp at hm
+      · simp [hau, Ctl.post]
+    · have hen' : reg.Enabled = false := by simpa using hen
+      simp [hen', Ctl.post]
+  have step2 : ∀ kv ∈ waRegs, ∀ s : List U2fEffect, s = [] →
+      (body2 kv s).post (fun s => s = [])
+        (fun r => U2fEffect.upgrade u lvl ∈ r.2 → Proved ⟨regs, waRegs, auth, toU2f, cr, ur⟩ user authType u lvl) := by
+    intro kv hkv s hs
+    obtain ⟨i, wa⟩ := kv
+    subst hs hb2
+    dsimp only
+    by_cases hen : wa.Enabled = true
+    · simp only [hen, Bool.not_true, Bool.false_eq_true, if_false]
+      by_cases hconv : (toU2f wa).2.isSome = true
+      · simp [hconv, Ctl.post]
+      · simp only [hconv]
+        by_cases hau : (auth (toU2f wa).1).2.isNone = true
+        · simp only [hau, if_true]
+          by_cases hc : cr user = true
+          · simp only [hc, Bool.not_true, Bool.false_eq_true, if_false]
+            have hP : Proved ⟨regs, waRegs, auth, toU2f, cr, ur⟩ user authType user (authType ||| 8) :=
+              ⟨rfl, rfl, hc, Or.inr ⟨(i, wa), hkv, hen, by simpa using hconv, by simpa using hau⟩⟩
+            by_cases hu : (ur user (authType ||| 8)).2.isSome = true
+            · simp only [hu, if_true, Ctl.post]
+              intro hm
+              cases isXHR <;> simp at hm <;> (obtain ⟨rfl, rfl⟩ := hm; exact hP)
+            · simp only [hu, Ctl.post]
+              intro hm
+              cases isXHR <;> simp at hm <;> (obtain ⟨rfl, rfl⟩ := hm; exact hP)
+          · have hc' : cr user = false := by simpa using hc
+            simp only [hc', Bool.not_false, if_true, Ctl.post]
+            intro hm; simp at hm
+        · simp [hau, Ctl.post]
+    · have hen' : wa.Enabled = false := by simpa using hen
+      simp [hen', Ctl.post]
+  cases h1 : forRange regs (none, []) body1 with
+  | ret r =>
+    intro h
+    exact forRange_ret h1 (fun s => s.2 = []) _ rfl step1 h
+  | done s =>
+    obtain ⟨e, tr⟩ := s
+    have htr : tr = [] := forRange_done h1 (fun s => s.2 = [])
+      (fun r => U2fEffect.upgrade u lvl ∈ r.2 → Proved ⟨regs, waRegs, auth, toU2f, cr, ur⟩ user authType u lvl) rfl step1
+    subst htr
+    simp only
+    cases h2 : forRange waRegs [] body2 with
+    | ret r =>
+      intro h
+      exact forRange_ret h2 (fun s => s = []) _ rfl step2 h
+    | done tr2 =>
+      have htr2 : tr2 = [] := forRange_done h2 (fun s => s = [])
+        (fun r => U2fEffect.upgrade u lvl ∈ r.2 → Proved ⟨regs, waRegs, auth, toU2f, cr, ur⟩ user authType u lvl) rfl step2
+      subst htr2
+      intro h; simp at h
+
+end KM.U2fGo
